@@ -337,6 +337,9 @@ func (w *World) PayCallsCopy() []PayCall {
 type PayPlan struct {
 	Answer Answer   // ASucceeded, APending, AFailed, AFailedNil, AError
 	Truth  PayState // real state after the call for APending / AError (InFlight, Succeeded, Failed, NoPayment)
+	// ErrStatus selects what accompanies the error of AError: 0 = chosen by the payment hash,
+	// 1 = the zero value (its state field reads "succeeded"), 2 = a status saying pending
+	ErrStatus int
 }
 
 type Node struct {
@@ -500,7 +503,13 @@ func (n *Node) pay(ctx context.Context, request string, partial bool, amountMsat
 			p.State = Failed
 			res = lightning.PaymentStatus{PaymentStatus: lightning.Failed, PaymentFailureReason: "no route"}
 		case AError:
+			// what comes with the error must be ignored by the caller: the real adapters return the
+			// zero value (whose state field reads "succeeded") on a transport error, others a
+			// half-filled status; both are produced, chosen by the payment hash
 			res = lightning.PaymentStatus{PaymentStatus: lightning.Pending}
+			if plan.ErrStatus == 1 || (plan.ErrStatus == 0 && len(hash) > 0 && strings.ContainsRune("02468ace", rune(hash[len(hash)-1]))) {
+				res = lightning.PaymentStatus{}
+			}
 			e = errors.New("lnmodel: transport error")
 			switch plan.Truth {
 			case NoPayment:
